@@ -60,16 +60,16 @@ def stage1(ctx):
     flagged = {c.__name__: f for c, f in V.PASS_FLAG_MAP.items()}
     tot = {"programs": len(results), "calls": 0, "compiles": 0, "skip_compiles": 0, "skip_failed": 0, "skip_equal_ref": 0,
            "invocations": 0, "changed": 0, "wf_checks": 0, "roundtrip_ok": 0, "roundtrip_unsupported": 0, "ref_ok_calls": 0}
-    snaps = []
+    snaps = {}
     latent = []
     for r in results:
         e = by_name[r["name"]]
+        snaps[r["name"]] = {"entry": e, "snaps": r["snaps"], "inputs": r.get("inputs", []), "ref_runtime": r.get("ref_runtime")}
         s = r["stats"]
         for k in ("calls", "compiles", "skip_compiles", "skip_failed", "skip_equal_ref", "invocations", "changed", "wf_checks", "ref_ok_calls"):
             tot[k] += s.get(k, 0)
         tot["roundtrip_ok"] += s.get("roundtrip", {}).get("ok", 0)
         tot["roundtrip_unsupported"] += s.get("roundtrip", {}).get("unsupported", 0)
-        snaps += r["snaps"]
         for err in r["errors"]:
             ctx.violation("correspondence-broken", f"pass harness failed on corpus program {r['name']}", {"error": err[-2500:]})
         seen_kinds = set()
